@@ -151,9 +151,36 @@ func runC05TripAtCheck(c *Cfg) {
 	})
 }
 
+// runC05FlowRetries: flows that carry a retry budget of their own, cancelled inside every callback: no further
+// attempt of the flow starts a node again, and the cut-short run reports the context's error.
+func runC05FlowRetries(c *Cfg) {
+	r := c.Rep
+	cases := flowRetryCases()
+	parallel(c, len(cases), func(i int) {
+		base := cases[i]
+		refOut := scen.NewExec(base).RunOnce()
+		ref := keysOf(refOut.Events)
+		r.EvalN(1)
+		for p := 0; p < len(ref); p++ {
+			v := base.Clone()
+			v.Inject = scen.Inject{Kind: []string{"cancel", "deadline", "cancel-cause"}[(i+p)%3], At: p}
+			o := scen.NewExec(v).RunOnce()
+			r.EvalN(1)
+			r.Count("inject.flow_with_retries", 1)
+			for _, f := range judgeC05(c, v, ref, &o, true) {
+				r.Violate("C05", "C05:"+f.Key, f.Detail, ScenCase{"inject-flow-with-retries", v})
+			}
+			if p < len(ref)-1 {
+				r.Nontrivial(fmt.Sprintf("fr %s|@%d", scenSig(base), p))
+			}
+		}
+	})
+}
+
 func runC05(c *Cfg) {
 	r := c.Rep
 	defer runC05TripAtCheck(c)
+	defer runC05FlowRetries(c)
 	nb := c.Pick(2000, 150000)
 	parallel(c, nb, func(i int) {
 		rg := c.Rng("c05", i)
